@@ -17,6 +17,7 @@ from microschc.protocol.registry import PARSERS, REGISTER_PARSER, ProtocolsIDs
 from microschc.rfc8724 import FieldDescriptor, HeaderDescriptor
 from microschc.binary.buffer import Buffer, Padding
 from microschc.protocol.ipv6 import IPV6_HEADER_ID, IPv6Fields
+from microschc.protocol.sctp import SCTPFields
 
 UDP_HEADER_ID = 'UDP'
 
@@ -266,7 +267,8 @@ UDPComputeFunctions: Dict[str, Tuple[ComputeFunctionType, ComputeFunctionDepende
                                               IPv6Fields.SRC_ADDRESS,
                                               IPv6Fields.DST_ADDRESS,
                                               IPv4Fields.SRC_ADDRESS,
-                                              IPv4Fields.DST_ADDRESS }),
+                                              IPv4Fields.DST_ADDRESS,
+                                              SCTPFields.CHECKSUM }),
 }
 
 REGISTER_PARSER(protocol_id=ProtocolsIDs.UDP, parser_class=UDPParser)
